@@ -29,6 +29,9 @@ SITES = [
     _g("gaussLow", 0, "Scalar"),
     _g("gaussHigh", 1, "Scalar"),
     _g("gaussNum", 2, "Int"),
+    # if num_samples[i] == 1: values = np.array([center[i]])       (a single sample sits at the center; fix 64524996)
+    dict(gen="Distributions", name="gaussSingle", file=_D, func="gaussian", select=("iftest", "num_samples[i] == 1", 0), params=_GP,
+         params_map=_GM, param_types=_GT, ret="Bool", modes=["rat"]),
     # weights = np.exp(-0.5 * (values - center[i]) ** 2 / standard_deviation[i] ** 2)      (pointwise)
     dict(gen="Distributions", name="gaussWeight", file=_D, func="gaussian", select=("assign", "weights", 0), params=_WP,
          params_map=_WM, ret="Scalar", modes=["real", "float"]),
